@@ -62,8 +62,17 @@ pub fn generate_kinds(kinds: &[&str], n: usize, seed: u64, em: &mut Emitter) {
         let mut rc = r.fork();
         let r = &mut rc;
         let defect = kinds[i % kinds.len()];
-        let claims = gen::gen_object(r, 3, 3, 1);
+        let mut claims = gen::gen_object(r, 3, 3, 1);
         let mut marks = gen::gen_marking(r, &claims, true);
+        if (i / kinds.len()) % 5 == 2 && claims.get("portrait").is_none() {
+            // one round in five: the credential carries a portrait of 5 to 12 KB, disclosable or not (the issuer-signed JWT
+            // or one disclosure alone is then longer than any block a streaming hasher works with)
+            let len = 5_000 + r.below(7_000);
+            claims.as_object_mut().unwrap().insert("portrait".to_string(), json!(gen::long_text(r, len)));
+            if r.chance(1, 2) {
+                marks.insert(0, vec![gen::Tok::Key("portrait".to_string())]);
+            }
+        }
         if matches!(defect, "drop_disclosure" | "reorder_disclosures" | "replace_disclosure") && marks.len() < 2 {
             // these edits need at least two disclosures; take two top-level members if possible
             let nodes = gen::all_nodes(&claims);
